@@ -369,3 +369,18 @@ def replay(path):
         print("property holds on this input" if ok else "property FAILS on this input")
         return 0 if ok else 1
     return 0
+
+
+MANIFEST = {
+    "text": "Coq theorem negotiation_invisible (props/C15.v): for EVERY stream of the negotiation grammar (data without IAC, "
+            "any IAC verb opt commands, at most `limit` for the counting sync transport) and EVERY segmentation into non-empty "
+            "recv() results, the concatenated read() results are the data minus NULs and the replies are the correct ones, in order; "
+            "corollaries seg_independent and sync_eq_async; the pinned commit's local control buffer is refuted by a vm_compute witness. "
+            "Axiom-free (Print Assumptions recorded). Tie: Gen_Telnet.v (constants, limits) regenerated from /repo on every run; the model "
+            "[run] is executed by vm_compute on the same chunk lists as both real transports (scripted socket / StreamReader) and must agree; "
+            "an independent token-level oracle decides the property on the implementation.",
+    "note": "Trusted: Coq kernel + vm_compute; the hand model coq/model/Telnet.v (tied by correspondence on all 1-cut, many 2-cut, 1-byte and random "
+            "segmentations of generated grammar streams and on malformed streams); gen/gen_telnet.py; scripted sockets. Not modelled: the real socket, "
+            "timeouts, the socket-timeout bump after the 10th command.",
+    "technique": "Coq proof by induction over recv chunks with a grammar invariant (byte-wise automaton refinement) + vm_compute correspondence against both transports",
+}
